@@ -440,6 +440,29 @@ def _scenarios(ctx, g):
         out.append(("refresh-not-skipped", "refresh-after-failure", "a refresh failed (%s); the next one, attempted immediately afterwards, "
                     "was not skipped: %s" % (f1, f2)))
     ctx.case("scenario:refresh-after-failure")
+    # 3c. history across processes: P refreshes, more than the interval passes (P's clock is advanced), ANOTHER process refreshes
+    #     (the timestamp file then says: 10 s ago), P tries again - inside the interval of that refresh: skipped, no request
+    d = fresh("refresh-other-process")
+    with open(os.path.join(d, "last_update.txt"), "w") as f:
+        f.write(str(time.time() - (thr + 30)))
+    k = sched.spawn("R", d, g["inst"], ("refresh_twice", thr + 60))
+    n = 0
+    while k.pending and k.pending.get("op") != "between" and n < 200:
+        k.grant(); adv(k); n += 1
+    if k.pending and k.pending.get("op") == "between":
+        with open(os.path.join(d, "last_update.txt"), "w") as f:
+            f.write(str(time.time() + thr + 50))
+        k.grant(); adv(k)
+    f3 = run_to_end(k)
+    k.reap()
+    if f3.get("result") != "ok":
+        out.append(("refresh-raised", "refresh-other-process", "two refresh attempts of one process raised: %s" % f3))
+    elif not f3.get("net_first"):
+        out.append(("refresh-wrongly-skipped", "refresh-other-process", "the first refresh (last update long ago) did not even try: %s" % f3))
+    elif f3.get("second") != "skipped" or f3.get("net_second"):
+        out.append(("refresh-not-skipped", "refresh-other-process", "another process refreshed 10 s ago (timestamp file), yet this process - which had "
+                    "refreshed itself more than an interval ago - went to the source again: %s" % f3))
+    ctx.case("scenario:refresh-other-process")
     # 4. damaged (empty / garbage) timestamp file must read as "never updated", not raise
     for content in ["", "garbage\n"]:
         d = fresh("stamp")
